@@ -5,15 +5,25 @@
 (* Names are sequences of code points, so that "ascending by code point" (what Python's   *)
 (* list.sort() does on str) is definable: Less(a, b) is the lexicographic order.          *)
 (*                                                                                        *)
-(* One action per public call:                                                            *)
-(*   Put(n, len, kind)   create the series n with len values, or extend it to len values  *)
-(*                       (holder[n] = [...] / AppendValue); kind "int": every value is a  *)
-(*                       Python int, "num": ints and floats                               *)
+(* One action per public call; they interleave freely: a holder is mutated, asked for its  *)
+(* column list, rendered, mutated again, rendered again ... and every table is judged      *)
+(* against what the holder stores AT THAT MOMENT:                                          *)
+(*   Put(n, len, kind)   AppendValue path: create the series n with len values (an empty   *)
+(*                       one by holder[n] = []), or extend it to len values; kind "int":   *)
+(*                       every value is a Python int, "num": ints and floats               *)
+(*   Store(n, len, kind) item assignment holder[n] = [v1 .. vlen]: creates the series or   *)
+(*                       REPLACES it (this is how the solver itself, the tests and users   *)
+(*                       fill a holder; it does not go through AppendValue)                *)
+(*   Delete(n)           del holder[n]                                                     *)
+(*   List                GetSeriesList()  (a query: no table, nothing stored changes)      *)
 (*   Solve(vars, h)      EquationSolver.SolveEquation() succeeded with horizon h over the  *)
 (*                       stored names and vars: every series, and the time axes k and t    *)
 (*                       the solver always adds, then have h+1 values                      *)
 (*   SolveFailed(obs)    SolveEquation() raised; the series are left as observed           *)
 (*   Render(fmt)         GenerateCSVtext(<format string of class fmt>)                     *)
+(* A mutation invalidates the last table (table = NoTable: it described the holder as it   *)
+(* was) and ends the "after a successful solve" regime: once the user has changed the      *)
+(* solver's holder, only "rows = shortest series" is demanded, not horizon+1.              *)
 (*                                                                                        *)
 (* PutOp / SolveOp / RenderOp are the single source of truth: the actions below and the   *)
 (* trace specification Table_Trace use them.  RenderOp *computes* the table; the property *)
@@ -28,7 +38,8 @@ CONSTANTS
     MaxLen,         \* Put lengths are 0..MaxLen
     MaxNames,       \* bound on the number of stored series
     Horizons,       \* horizons usable in Solve
-    FormatSeq       \* sequence of format classes usable in Render (at most one render each)
+    FormatSeq,      \* sequence of format classes usable in Render
+    MaxOps          \* bound on the length of a history (Next only)
 
 Kinds == {"int", "num"}
 IntOnlyFormats == {"d"}         \* '%d' is only meaningful on int-only series
@@ -109,6 +120,12 @@ PutOp(H, n, len, kind) ==
         ELSE IF n \in DOMAIN H THEN [len |-> len, kind |-> JoinKind(H[n].kind, kind)]
         ELSE [len |-> len, kind |-> IF len = 0 THEN "int" ELSE kind]]     \* no value: vacuously int-only
 
+StoreOp(H, n, len, kind) ==
+    [m \in DOMAIN H \cup {n} |->
+        IF m # n THEN H[m] ELSE [len |-> len, kind |-> IF len = 0 THEN "int" ELSE kind]]
+
+DeleteOp(H, n) == [m \in DOMAIN H \ {n} |-> H[m]]
+
 SolveOp(H, vs, h) ==
     [m \in DOMAIN H \cup vs \cup {NmK, NmT} |-> [len |-> h + 1, kind |-> "num"]]
 
@@ -116,28 +133,49 @@ LensOf(H) == [n \in DOMAIN H |-> H[n].len]
 AllInt(H) == \A n \in DOMAIN H : H[n].kind = "int"
 
 ----------------------------------------------------------------------------
-VARIABLES phase,     \* "build" | "run" (after a solve) | "render"
+VARIABLES phase,     \* "build" | "run" (the holder is a solver's, after a solve)
           holder,    \* [stored name -> [len, kind]]
-          solved,    \* [is, horizon]: a SolveEquation() call succeeded with this horizon
-          table,     \* the last table produced
-          puts,      \* history of Put arguments
-          renders    \* history of Render arguments
+          solved,    \* [is, horizon]: SolveEquation() succeeded with this horizon and the holder is untouched since
+          table,     \* the table of the last Render, NoTable once the holder has been changed
+          hist       \* history of calls (see Op)
 
-vars == << phase, holder, solved, table, puts, renders >>
+vars == << phase, holder, solved, table, hist >>
+
+Op(op, n, len, kind, fmt, h) == [op |-> op, name |-> n, len |-> len, kind |-> kind, fmt |-> fmt, h |-> h]
+MutOps == {"put", "store", "del", "solve", "solvefail"}
+ObsOps == {"list", "render"}
 
 NotSolved == [is |-> FALSE, horizon |-> 0]
 EmptyHolder == [n \in {} |-> [len |-> 0, kind |-> "int"]]
 
 Init == /\ phase = "build" /\ holder = EmptyHolder /\ solved = NotSolved
-        /\ table = NoTable /\ puts = << >> /\ renders = << >>
+        /\ table = NoTable /\ hist = << >>
 
 Put(n, len, kind) ==
-    /\ phase = "build"
     /\ n \in DOMAIN holder => len > holder[n].len
     /\ Cardinality(DOMAIN holder \cup {n}) <= MaxNames
     /\ holder' = PutOp(holder, n, len, kind)
-    /\ puts' = Append(puts, [name |-> n, len |-> len, kind |-> kind])
-    /\ UNCHANGED << phase, solved, table, renders >>
+    /\ table' = NoTable /\ solved' = NotSolved
+    /\ hist' = Append(hist, Op("put", n, len, kind, "", 0))
+    /\ UNCHANGED phase
+
+Store(n, len, kind) ==
+    /\ Cardinality(DOMAIN holder \cup {n}) <= MaxNames
+    /\ holder' = StoreOp(holder, n, len, kind)
+    /\ table' = NoTable /\ solved' = NotSolved
+    /\ hist' = Append(hist, Op("store", n, len, kind, "", 0))
+    /\ UNCHANGED phase
+
+Delete(n) ==
+    /\ n \in DOMAIN holder
+    /\ holder' = DeleteOp(holder, n)
+    /\ table' = NoTable /\ solved' = NotSolved
+    /\ hist' = Append(hist, Op("del", n, 0, "int", "", 0))
+    /\ UNCHANGED phase
+
+List ==
+    /\ hist' = Append(hist, Op("list", << >>, 0, "int", "", 0))
+    /\ UNCHANGED << phase, holder, solved, table >>
 
 (* SetInitialConditions gives every variable one value; each step appends one to every series *)
 Solve(vs, h) ==
@@ -146,25 +184,29 @@ Solve(vs, h) ==
     /\ holder' = SolveOp(holder, vs, h)
     /\ solved' = [is |-> TRUE, horizon |-> h]
     /\ phase' = "run"
-    /\ UNCHANGED << table, puts, renders >>
+    /\ table' = NoTable
+    /\ hist' = Append(hist, Op("solve", << >>, 0, "num", "", h))
 
 SolveFailed(obs) ==
     /\ phase = "build"
     /\ holder' = obs
     /\ solved' = NotSolved
     /\ phase' = "run"
-    /\ UNCHANGED << table, puts, renders >>
+    /\ table' = NoTable
+    /\ hist' = Append(hist, Op("solvefail", << >>, 0, "num", "", 0))
 
 Render(fmt) ==
     /\ fmt \in IntOnlyFormats => AllInt(holder)
     /\ table' = RenderOp(holder, fmt)
-    /\ renders' = Append(renders, fmt)
-    /\ phase' = "render"
-    /\ UNCHANGED << holder, solved, puts >>
+    /\ hist' = Append(hist, Op("render", << >>, 0, "int", fmt, 0))
+    /\ UNCHANGED << phase, holder, solved >>
 
-Next == \/ \E n \in Names, len \in 0..MaxLen, kind \in Kinds : Put(n, len, kind)
-        \/ \E h \in Horizons : Solve({}, h)
-        \/ \E i \in 1..Len(FormatSeq) : Len(renders) < Len(FormatSeq) /\ Render(FormatSeq[i])
+Next == /\ Len(hist) < MaxOps
+        /\ \/ \E n \in Names, len \in 0..MaxLen, kind \in Kinds : Put(n, len, kind) \/ Store(n, len, kind)
+           \/ \E n \in Names : Delete(n)
+           \/ List
+           \/ \E h \in Horizons : Solve({}, h)
+           \/ \E i \in 1..Len(FormatSeq) : Render(FormatSeq[i])
 
 Spec == Init /\ [][Next]_vars
 
@@ -178,9 +220,9 @@ C19_RowCount ==
 
 C19_CellIsFormattedValue == table.done => CellsFromSeries(table, holder)
 
-TypeOK == /\ phase \in {"build", "run", "render"}
+TypeOK == /\ phase \in {"build", "run"}
           /\ \A n \in DOMAIN holder : holder[n].len \in Nat /\ holder[n].kind \in Kinds
           /\ Cardinality(DOMAIN holder) <= MaxNames + 2
-          /\ Len(renders) <= Len(FormatSeq)
-          /\ table.done = (phase = "render")
+          /\ Len(hist) <= MaxOps
+          /\ table.done => hist # << >> /\ hist[Len(hist)].op \in ObsOps
 =============================================================================
